@@ -32,7 +32,11 @@ var c09Frames = func() []c09Frame {
 	// overhangs (full-width frame hanging over the bottom edge only, full-height frame over the
 	// right edge only, narrow frame over the bottom), an interior frame and a one-row frame
 	rects := [][4]int{{0, 0, 4, 4}, {0, 0, 2, 2}, {2, 2, 2, 2}, {2, 2, 3, 3}, {4, 4, 4, 4}, {0, 0, 5, 5}, {1, 0, 4, 4},
-		{0, 2, 4, 3}, {2, 0, 3, 4}, {1, 2, 2, 3}, {1, 1, 2, 2}, {0, 3, 4, 1}}
+		{0, 2, 4, 3}, {2, 0, 3, 4}, {1, 2, 2, 3}, {1, 1, 2, 2}, {0, 3, 4, 1},
+		// entirely outside in ONE direction only: a canvas-wide frame whose offset lies beyond the
+		// bottom edge, a canvas-high frame beyond the right edge (bulk-copy shortcuts key on the
+		// other dimension fitting)
+		{0, 6, 4, 2}, {6, 0, 2, 4}}
 	fills := []string{"opaqueA", "opaqueB", "a128", "a1", "a254", "transparent", "twotone"}
 	for _, r := range rects {
 		for _, nb := range []bool{false, true} {
@@ -247,13 +251,13 @@ func blendSweep(e *fw.Env, r *fw.Result) {
 func init() {
 	fw.Register(&fw.Check{
 		ID: "C09", Level: "model_checking", Shards: shards16,
-		Rule:   fmt.Sprint("explicit-state BFS over the real AnimDecoder: transition = NextFrame on one more frame from a ", len(c09Frames), "-frame alphabet on a 4x4 canvas (12 rectangles: in/partly out in both or in one direction only/outside/larger/interior/one row x blend x dispose x HasAlpha x 7 pixel fills), depth 3 quick / up to 6 thorough, states merged by reflection hash of the decoder's private state + model state; every history also checks Reset-replay and snapshot immutability; blend arithmetic swept over all alpha pairs x channel grid (thorough: all 2^32 operand tuples)"),
+		Rule:   fmt.Sprint("explicit-state BFS over the real AnimDecoder: transition = NextFrame on one more frame from a ", len(c09Frames), "-frame alphabet on a 4x4 canvas (14 rectangles: in/partly out in both or in one direction only/outside diagonally or in one direction only/larger/interior/one row x blend x dispose x HasAlpha x 7 pixel fills), depth 3 quick / up to 6 thorough, states merged by reflection hash of the decoder's private state + model state; every history also checks Reset-replay and snapshot immutability; blend arithmetic swept over all alpha pairs x channel grid (thorough: all 2^32 operand tuples)"),
 		Assume: []string{"reference compositor written from the container specification, checked step-wise against the previous verified canvas (no key-frame shortcut)", "blend results accept libwebp's documented integer formula or the specification's real formula within rounding", "state merging skips AnimDecoder.anim and canonicalises pos to min(pos,1) (argument in c09.go)"},
 		Run: func(e *fw.Env, r *fw.Result) {
 			pin()
 			sys := &c09Sys{frames: c09Frames}
 			depth := 3
-			var maxT int64 = 24_000_000
+			var maxT int64 = 48_000_000
 			if !e.Quick() {
 				depth = 6
 				maxT = 400_000_000
